@@ -34,11 +34,15 @@ type params struct {
 	Writers  int  // >1: ops are dealt round-robin to writer threads
 	FailCode bool // broker may answer chunks with a failure code (choice)
 	P        int  // schedule deviation budget
+	CT0       bool // the stream is opened with WithUpstreamCloseTimeout(0): Close does not wait for acknowledgements, it still cuts and sends what is buffered
 	Prior     bool // another upstream with a 50 ms close timeout and a 300 ms ack timeout was opened and closed on the connection before
 	CloseRace bool // Close is called while the writer threads are still writing
 }
 
 func (p params) name() string {
+	if p.CT0 {
+		return fmt.Sprintf("%s/q%d/u%v/pre%v/%s/w%d/fc%v/P%d/close-timeout-0", p.Policy, p.QoS, p.Unrel, p.Predecl, strings.Join(p.Ops, ","), p.Writers, p.FailCode, p.P)
+	}
 	if p.Prior {
 		return fmt.Sprintf("%s/q%d/u%v/pre%v/%s/w%d/fc%v/P%d/prior-tuned-stream", p.Policy, p.QoS, p.Unrel, p.Predecl, strings.Join(p.Ops, ","), p.Writers, p.FailCode, p.P)
 	}
@@ -142,6 +146,10 @@ func scenarios(tier string) []vlib.Scenario {
 	}
 	for _, pol := range []string{"none", "immediate"} {
 		add(params{Policy: pol, QoS: message.QoSReliable, Ops: []string{"wA1", "wB1", "F", "wA2"}, Writers: 2})
+	}
+	// close timeout 0
+	for _, pol := range []string{"none", "interval"} {
+		add(params{Policy: pol, QoS: message.QoSReliable, Ops: []string{"wA1", "wB1"}, Writers: 1, CT0: true})
 	}
 	// the options of an earlier stream of the process must not change this one (defaults are shared through pointers)
 	for _, pol := range []string{"none", "immediate"} {
@@ -438,6 +446,9 @@ func (w *world) main() {
 		ida := idA
 		opts = append(opts, iscp.WithUpstreamDataIDs([]*message.DataID{&ida}))
 	}
+	if w.p.CT0 {
+		opts = append(opts, iscp.WithUpstreamCloseTimeout(0))
+	}
 	if w.p.Prior {
 		pu, err := conn.OpenUpstream(ctx, "prior", iscp.WithUpstreamCloseTimeout(50*time.Millisecond), iscp.WithUpstreamAckTimeout(300*time.Millisecond), iscp.WithUpstreamFlushPolicyNone())
 		if err == nil {
@@ -688,7 +699,7 @@ func (w *world) oracleC01(v *vlib.Verdict) {
 			}
 		}
 	}
-	if len(missing) > 0 {
+	if len(missing) > 0 && !w.p.CT0 { // (with a close timeout of 0 Close does not wait for acknowledgements by configuration)
 		sort.Slice(missing, func(i, j int) bool { return missing[i] < missing[j] })
 		v.Fail("C01.ackhook", fmt.Sprintf("missing-at-close/reported-later=%v/dev=%v", late, w.dev), "Close returned nil although the results of chunks %v had not been reported to the ack hook (broker acks every chunk; results sent by then: %v)", missing, w.acksSentAtClose)
 	}
